@@ -56,6 +56,14 @@ def Hex.toFloat (h : Hex) : Float :=
   let v := (Float.ofNat h.mant).scaleB h.exp
   if h.neg then -v else v
 
+/-- the exact value of a binary64 (finite) as mantissa and exponent -/
+def floatToHex (f : Float) : Hex :=
+  let bits := f.toBits.toNat
+  let e := (bits >>> 52) % 2048
+  let m := bits % (2 ^ 52)
+  if e == 0 then { neg := bits >>> 63 == 1, mant := m, exp := -1074 }
+  else { neg := bits >>> 63 == 1, mant := m + 2 ^ 52, exp := (e : Int) - 1075 }
+
 def fmtRat (q : Rat) : String := s!"{q.num}/{q.den}"
 def fmtFloat (f : Float) : String := s!"b{f.toBits}"
 
@@ -91,6 +99,9 @@ structure St where
   cur : Array Hex := #[]
   inp : Array Hex := #[]
   out : Array Hex := #[]
+  /-- PLS: the values `only_2D` and `eta` had when `set_up` prepared the anatomical gradients and their norm -/
+  suOnly2d : Bool := false
+  suEta : Hex := default
 
 def joinS (l : List String) : String := " ".intercalate l
 
@@ -205,7 +216,7 @@ def materialise (b : Box) (f : Img Float) : Array Float :=
     `sqrt(alpha^2 + |g|^2 - <g,xi>^2)` enters the magnitude as `(alpha^2 + 2|g|^2) / penalty^2`. -/
 def answerPls (s : St) (toks : List String) : String :=
   let pf := s.pf.toFloat
-  let α := s.alpha.toFloat; let η := s.eta.toFloat
+  let α := s.alpha.toFloat
   let kArr := s.kappa.map arrF
   let κ : Option (Img Float) := kArr.map fun a => mkImg 0 s.b a
   let curArr := arrF s.cur; let anatArr := arrF s.anat
@@ -214,7 +225,8 @@ def answerPls (s : St) (toks : List String) : String :=
   let only2d := s.only2d   -- the harness calls set_only_2D() after construction
   -- `set_up` and `compute_inner_product_and_penalty`, stage by stage as in `plsSetUp` / `plsFields`; every stage is
   -- evaluated once on the box and stored, as the C++ does
-  let A0 := plsSetUp only2d η s.b anat
+  -- `set_up` computes the norm with the `only_2D` and `eta` of that moment (`cfg`: the current ones; object ops: as of `osetup`)
+  let A0 := plsSetUp s.suOnly2d s.suEta.toFloat s.b anat
   let azA := materialise s.b A0.az; let ayA := materialise s.b A0.ay; let axA := materialise s.b A0.ax
   let nA := materialise s.b A0.norm
   let A : PlsAnat Float := { az := mkImg 0 s.b azA, ay := mkImg 0 s.b ayA, ax := mkImg 0 s.b axA, norm := mkImg 0 s.b nA }
@@ -267,11 +279,124 @@ def parseCfg (toks : List String) : Option St :=
       | "A" :: af :: rest =>
         let anat := if af == "1" then ((rest.take n).map parseHex).toArray else #[]
         some { kind := (match kind with | "Q" => 0 | "R" => 1 | "L" => 2 | _ => 3),
-               only2d := o2 == "1", b := b, wb := wb, pf := parseHex pf, gamma := parseHex gamma, eps := parseHex eps,
+               only2d := o2 == "1", suOnly2d := o2 == "1", suEta := parseHex eta,
+               b := b, wb := wb, pf := parseHex pf, gamma := parseHex gamma, eps := parseHex eps,
                scalar := parseHex scalar, alpha := parseHex alpha, eta := parseHex eta,
                w := (wTok.map parseHex).toArray, kappa := kappa, anat := anat }
       | _ => none
     | _ => none
+  | _ => none
+
+/-! ### the prior object (ops `onew`, `oparse`, `obox`, `okappa`, `oanat`, `osetw`, `oset`, `osetup`, `ocall`, `owts`)
+
+The members of the object are the fields `kind, only2d, pf, gamma, eps, scalar, alpha, eta, wb, w, kappa, anat` of `St`; every
+transition is the model function of `StirVerif.C09.Model` (`NbPrior.ctor`, `NbPrior.parsed`, `NbPrior.setWeights`, …, `NbPrior.call`),
+instantiated at `Float`; the weights it leaves behind are stored exactly (`floatToHex`) and used by the same answer functions as the
+stateless ops (Quadratic: exact `Rat` arithmetic on them). -/
+
+def hexOfNat (n : Nat) : Hex := { neg := false, mant := n, exp := 0 }
+
+def St.toObj (s : St) : NbPrior Float :=
+  let wArr := arrF s.w
+  let kArr := s.kappa.map arrF
+  { kind := s.kind, only2D := s.only2d, pf := s.pf.toFloat, gamma := s.gamma.toFloat, eps := s.eps.toFloat, scalar := s.scalar.toFloat,
+    wb := s.wb, w := mkImg 0 s.wb wArr, kappa := kArr.map fun a => mkImg 0 s.b a }
+
+/-- write the members the model object may have changed back into the state -/
+def St.ofObj (s : St) (o : NbPrior Float) (weightsChanged : Bool) : St :=
+  let s := { s with kind := o.kind, only2d := o.only2D, wb := o.wb }
+  if weightsChanged then { s with w := ((voxels o.wb).map fun (z, y, x) => floatToHex (o.w z y x)).toArray } else s
+
+def dfltF (sz sy sx : Float) : Img Float := defaultWeights (K := Float) Float.ofInt sz sy sx
+
+/-- `W <nz> { <ny> { <nx> <values> } }` -/
+partial def parseNested (toks : List String) : Option (List (List (List Hex)) × List String) :=
+  let N (t : String) : Nat := t.toNat?.getD 0
+  let rec rows (n : Nat) (toks : List String) (acc : List (List Hex)) : Option (List (List Hex) × List String) :=
+    match n with
+    | 0 => some (acc.reverse, toks)
+    | n + 1 =>
+      match toks with
+      | nx :: rest => rows n (rest.drop (N nx)) (((rest.take (N nx)).map parseHex) :: acc)
+      | [] => none
+  let rec planes (n : Nat) (toks : List String) (acc : List (List (List Hex))) : Option (List (List (List Hex)) × List String) :=
+    match n with
+    | 0 => some (acc.reverse, toks)
+    | n + 1 =>
+      match toks with
+      | ny :: rest =>
+        match rows (N ny) rest [] with
+        | some (p, rest') => planes n rest' (p :: acc)
+        | none => none
+      | [] => none
+  match toks with
+  | "W" :: nz :: rest => planes (N nz) rest []
+  | _ => none
+
+def kindOf (k : String) : Nat := match k with | "Q" => 0 | "R" => 1 | "L" => 2 | _ => 3
+
+def answer (s : St) (toks : List String) : String :=
+  match s.kind with
+  | 0 => answerQ s toks
+  | 1 => answerNb s toks
+  | 2 => answerNb s toks
+  | _ => answerPls s toks
+
+def stepObj (s : St) (toks : List String) : Option (St × String) :=
+  let I (t : String) : Int := t.toInt?.getD 0
+  match toks with
+  | ["onew", kind, pf, o2, gamma, eps, scalar] =>
+    let k := kindOf kind
+    let o := NbPrior.ctor (K := Float) k (o2 == "1") 0 0 0 0
+    -- PLSPrior(only_2D, pf): set_defaults() gives alpha = eta = 1, no kappa, no anatomical image
+    some ({ s with kind := k, only2d := o.only2D, pf := parseHex pf, gamma := parseHex gamma, eps := parseHex eps, scalar := parseHex scalar,
+                   alpha := hexOfNat 1, eta := hexOfNat 1, wb := o.wb, w := #[], kappa := none, anat := #[],
+                   suOnly2d := o.only2D, suEta := hexOfNat 1 }, "ok")
+  | "oparse" :: kind :: pf :: o2 :: gamma :: eps :: scalar :: rest =>
+    match parseNested rest with
+    | none => some (s, "bad-op")
+    | some (a, _) =>
+      match NbPrior.parsed (K := Float) (kindOf kind) (o2 == "1") 0 0 0 0 (a.map fun p => p.map fun r => r.map Hex.toFloat) none with
+      | none => some (s, "err")
+      | some o =>
+        -- the weights as `parsedWeights` re-indexes them (floats are exact in binary64)
+        some ({ (s.ofObj o true) with pf := parseHex pf, gamma := parseHex gamma, eps := parseHex eps,
+                                      scalar := parseHex scalar, kappa := none }, "ok")
+  | ["obox", z0, z1, y0, y1, x0, x1] => some ({ s with b := ⟨I z0, I z1, I y0, I y1, I x0, I x1⟩ }, "ok")
+  | "okappa" :: f :: vals =>
+    let o := (s.toObj).setKappa (if f == "1" then some (fun _ _ _ => 0) else none)
+    some ({ s with kappa := o.kappa.map fun _ => (vals.map parseHex).toArray }, "ok")
+  | "oanat" :: vals => some ({ s with anat := (vals.map parseHex).toArray }, "ok")
+  | "osetw" :: z0 :: z1 :: y0 :: y1 :: x0 :: x1 :: vals =>
+    let wb : Box := ⟨I z0, I z1, I y0, I y1, I x0, I x1⟩
+    let o := (s.toObj).setWeights wb (fun _ _ _ => 0)
+    some ({ s with wb := o.wb, w := (vals.map parseHex).toArray }, "ok")
+  | ["oset", what, v] =>
+    match what with
+    | "pf" => some ({ s with pf := parseHex v }, "ok")
+    | "gamma" => some ({ s with gamma := parseHex v }, "ok")
+    | "eps" => some ({ s with eps := parseHex v }, "ok")
+    | "scalar" => some ({ s with scalar := parseHex v }, "ok")
+    | "alpha" => some ({ s with alpha := parseHex v }, "ok")
+    | "eta" => some ({ s with eta := parseHex v }, "ok")
+    | "only2d" => some ({ s with only2d := v == "1" }, "ok")
+    | _ => some (s, "bad-op")
+  | ["osetup"] =>
+    -- NbPrior.setUp: nothing changes (in particular not the weights); PLS: the anatomical data are prepared now
+    let o := (s.toObj).setUp
+    some ({ (s.ofObj o false) with suOnly2d := s.only2d, suEta := s.eta }, "ok")
+  | "ocall" :: vz :: vy :: vx :: fn =>
+    if s.kind == 3 then some (s, answerPls s fn)
+    else
+      let o := s.toObj
+      let (o', ans) := o.call dfltF (parseHex vz).toFloat (parseHex vy).toFloat (parseHex vx).toFloat
+        fun o' => answer (s.ofObj o' (weightsEmpty o.wb && !weightsEmpty o'.wb)) fn
+      some (s.ofObj o' (weightsEmpty o.wb && !weightsEmpty o'.wb), ans)
+  | ["owts"] =>
+    let wArr := arrF s.w
+    let w : Img Float := mkImg 0 s.wb wArr
+    let wb := if weightsEmpty s.wb then emptyBox else s.wb
+    some (s, joinS ([s!"{wb.z0} {wb.z1} {wb.y0} {wb.y1} {wb.x0} {wb.x1}"] ++ (voxels wb).map fun (z, y, x) => vmF (w z y x) (w z y x).abs))
   | _ => none
 
 def stepLine (s : St) (line : String) : St × String :=
@@ -297,11 +422,9 @@ def stepLine (s : St) (line : String) : St × String :=
     | "out" => ({ s with out := a }, "ok")
     | _ => (s, "err")
   | _ =>
-    match s.kind with
-    | 0 => (s, answerQ s toks)
-    | 1 => (s, answerNb s toks)
-    | 2 => (s, answerNb s toks)
-    | _ => (s, answerPls s toks)
+    match stepObj s toks with
+    | some r => r
+    | none => (s, answer s toks)
 
 partial def loop (h : IO.FS.Stream) (s : St) : IO Unit := do
   let line ← h.getLine
